@@ -284,6 +284,23 @@ class Evaluator:
                 continue
             if isinstance(st, ast.Pass):
                 continue
+            if isinstance(st, ast.Try) and not st.finalbody:
+                try:
+                    r = self.run(st.body, env, owner, kind)
+                except Raises as e:
+                    for h in st.handlers:
+                        names = [] if h.type is None else [ast.unparse(x) for x in (h.type.elts if isinstance(h.type, ast.Tuple) else [h.type])]
+                        if h.type is None or any(str(e.what).startswith(n) for n in names) or 'Exception' in names:
+                            r = self.run(h.body, env, owner, kind)
+                            break
+                    else:
+                        raise
+                else:
+                    if not r:
+                        r = self.run(st.orelse, env, owner, kind)
+                if r:
+                    return r
+                continue
             raise Unsupported(f'statement {ast.unparse(st)[:60]}')
         return None
 
@@ -531,6 +548,15 @@ class Evaluator:
                 return frozenset(args[0].vals if isinstance(args[0], Stream) else args[0])
             if fn.id == 'len' and len(args) == 1 and isinstance(args[0], (frozenset, tuple)):
                 return len(args[0])
+            if fn.id == 'getattr' and len(args) >= 2 and args[0] == SELF and isinstance(args[1], str):
+                v, _own = self.m.method(self.lg.tfcls if kind == 'tf' else self.lg.modelcls, args[1])
+                if v is None:
+                    if len(args) == 3:
+                        return args[2]
+                    raise Raises(f'AttributeError {args[1]}')
+                return Bound(kind, args[1])
+            if fn.id in ('Operator', 'Quantifier') and len(args) == 1 and isinstance(args[0], EnumRef):
+                return args[0]
             if fn.id in ('maxceil', 'minfloor') and len(args) == 3:
                 # contract (tools.maxceil/minfloor, checked structurally in C08):
                 # max / min of the iterable, `default` when it is empty
@@ -548,11 +574,16 @@ class Evaluator:
         return self.apply(f, args)
 
     # ---- tables -------------------------------------------------------------
-    def table(self, opname):
+    def table(self, opname, via_call=True):
+        """Table of an operator as model evaluation obtains it: through
+        TruthFunction.__call__(oper, *args) (via_call) or from the method itself."""
         n = self.lgs.lex.arity[opname]
         out = {}
         for tup in itertools.product(list(self.dom), repeat=n):
-            r = self.call_tf(opname, list(tup))
+            if via_call:
+                r = self.call_tf('__call__', [EnumRef('Operator', opname)] + list(tup))
+            else:
+                r = self.call_tf(opname, list(tup))
             if not isinstance(r, Val):
                 raise Unsupported(f'{self.lg.name}.{opname}{tup} -> {r!r}')
             out[tuple(v.name for v in tup)] = r.name
@@ -593,6 +624,7 @@ class Semantics:
         lex = lgs.lex
         self.arity = lex.arity
         self.tables = {op: self.ev.table(op) for op in lex.truth_functional}
+        self.tables_direct = {op: self.ev.table(op, via_call=False) for op in lex.truth_functional}
         self.gen: dict[str, dict[frozenset, str]] = {}
         subsets = [frozenset(c) for r in range(0, len(self.V) + 1) for c in itertools.combinations(self.V, r)]
         self.subsets = subsets
